@@ -1,9 +1,12 @@
 package gv
 
 import (
+	"encoding/json"
 	"fmt"
 	"os"
 	"path/filepath"
+	"strings"
+	"sync"
 )
 
 func init() {
@@ -35,23 +38,137 @@ func (c *Ctx) lexSpecTarget(l *LexSpec, flags ...string) (*Target, error) {
 	return t, nil
 }
 
+type lexDump struct {
+	Trans  [][]int  `json:"trans"`
+	Accept []int    `json:"accept"`
+	Ignore []string `json:"ignore"`
+}
+
+// lexSimJob: dumps the generated DFA natively on representative runes, searches the relation
+// between DFA states and NFA state sets from (0, start) and returns the job that lets the
+// engine verify it for a symbolic rune.
+func (c *Ctx) lexSimJob(t *Target, l *LexSpec, name string) (Job, error) {
+	nfa := l.BuildNFA()
+	reps := nfa.RepRunes()
+	dir := filepath.Join(t.ModDir, "_verifdata")
+	var rb strings.Builder
+	rb.WriteString("//go:build verif\n\npackage lexer\n\nvar verifRepRunes = []rune{")
+	for _, r := range reps {
+		fmt.Fprintf(&rb, "%d, ", r)
+	}
+	rb.WriteString("}\n")
+	frep := filepath.Join(dir, "reprunes.go")
+	os.WriteFile(frep, []byte(rb.String()), 0o644)
+	tmp := *t
+	tmp.Harness = append(append([]string{}, t.Harness...), frep, VerifRoot+"/harness/genlexer/dump.go")
+	bin := filepath.Join(c.Scratch, "lexdump_"+sanitize(name)+".test")
+	if err := tmp.BuildReplayBinary(bin, c.Scratch); err != nil {
+		return Job{}, err
+	}
+	nr, err := tmp.RunReplayBinary(bin, "VerifDumpLexTables", "/dev/null")
+	if nr == nil {
+		return Job{}, err
+	}
+	m := tablesRe.FindStringSubmatch(nr.Raw)
+	if m == nil {
+		return Job{}, fmt.Errorf("no table dump in native output")
+	}
+	var d lexDump
+	if err := json.Unmarshal([]byte(m[1]), &d); err != nil {
+		return Job{}, err
+	}
+	type pair struct {
+		s int
+		m uint64
+	}
+	seen := map[pair]bool{{0, nfa.Start()}: true}
+	work := []pair{{0, nfa.Start()}}
+	for i := 0; i < len(work) && len(work) < 3000; i++ {
+		p := work[i]
+		if b := nfa.Best(p.m); b >= 0 && nfa.PatIgnored[b] {
+			continue
+		}
+		if p.s < 0 || p.s >= len(d.Trans) {
+			continue
+		}
+		for ri, r := range reps {
+			n := d.Trans[p.s][ri]
+			m2 := nfa.Step(p.m, r)
+			if n >= 0 && m2 != 0 {
+				q := pair{n, m2}
+				if !seen[q] {
+					seen[q] = true
+					work = append(work, q)
+				}
+			}
+		}
+	}
+	var pb strings.Builder
+	pb.WriteString("//go:build verif\n\npackage lexer\n\n// candidate relation (DFA state, NFA state set)\nvar verifLexPairs = []verifLexPair{")
+	for _, p := range work {
+		fmt.Fprintf(&pb, "{%d, %#x}, ", p.s, p.m)
+	}
+	pb.WriteString("}\n")
+	fp := filepath.Join(dir, "lexpairs.go")
+	os.WriteFile(fp, []byte(pb.String()), 0o644)
+	st := *t
+	st.Harness = append(append([]string{}, t.Harness...), fp, VerifRoot+"/harness/genlexer/tablesim.go")
+	return Job{
+		Name:           name,
+		Target:         &st,
+		Run:            SymRun{Harness: "VerifLexTableSim", LoopBound: 400},
+		Bounds:         fmt.Sprintf("lexical grammar %s: every pair (%d) of the relation between generated DFA states and sets of reference NFA states, every rune in [0,0x10FFFF] (symbolic): unbounded in the length of the lexeme", l.Name, len(work)),
+		RequiredCovers: []string{"end"},
+	}, nil
+}
+
 func (c *Ctx) c01Jobs(maxN int, flags ...string) []Job {
-	var jobs []Job
+	// generation is sequential (one gocc binary, cheap); the native table dumps are built in parallel
+	type prep struct {
+		l    *LexSpec
+		t    *Target
+		jobs []Job
+		errs []string
+	}
+	var preps []*prep
 	for _, l := range LexSpecs {
 		t, err := c.lexSpecTarget(l, flags...)
 		if err != nil {
 			c.Inconclusive = append(c.Inconclusive, err.Error())
 			continue
 		}
-		for n := 0; n <= maxN; n++ {
-			jobs = append(jobs, Job{
-				Name:           fmt.Sprintf("scan %s%v N=%d", l.Name, flags, n),
-				Target:         t,
-				Run:            SymRun{Harness: "VerifC01Scan", Params: map[string]int{"N": n, "ABSTRACT": 0}, LoopBound: 24, LoopBounds: map[string]int{"Scan": n + 3, "verifRefScan": n + 3}},
-				Bounds:         fmt.Sprintf("lexical grammar %s: every source of %d bytes (ill-formed UTF-8 included), every start offset on the decode chain", l.Name, n),
-				RequiredCovers: []string{"end"},
-			})
-		}
+		preps = append(preps, &prep{l: l, t: t})
+	}
+	var wg sync.WaitGroup
+	sem := make(chan struct{}, 6)
+	for _, p := range preps {
+		wg.Add(1)
+		sem <- struct{}{}
+		go func(p *prep) {
+			defer wg.Done()
+			defer func() { <-sem }()
+			if sj, err := c.lexSimJob(p.t, p.l, fmt.Sprintf("scan %s%v tables", p.l.Name, flags)); err == nil {
+				sj.MaxCoverReplays = -1
+				p.jobs = append(p.jobs, sj)
+			} else {
+				p.errs = append(p.errs, fmt.Sprintf("%s: DFA table simulation: %v", p.l.Name, err))
+			}
+			for n := 0; n <= maxN; n++ {
+				p.jobs = append(p.jobs, Job{
+					Name:           fmt.Sprintf("scan %s%v N=%d", p.l.Name, flags, n),
+					Target:         p.t,
+					Run:            SymRun{Harness: "VerifC01Scan", Params: map[string]int{"N": n, "ABSTRACT": 0}, LoopBound: 24, LoopBounds: map[string]int{"Scan": n + 3, "verifRefScan": n + 3}},
+					Bounds:         fmt.Sprintf("lexical grammar %s: every source of %d bytes (ill-formed UTF-8 included), every start offset on the decode chain", p.l.Name, n),
+					RequiredCovers: []string{"end"},
+				})
+			}
+		}(p)
+	}
+	wg.Wait()
+	var jobs []Job
+	for _, p := range preps {
+		c.Inconclusive = append(c.Inconclusive, p.errs...)
+		jobs = append(jobs, p.jobs...)
 	}
 	return jobs
 }
@@ -62,6 +179,7 @@ func checkC01(c *Ctx) {
 		maxN = 5
 	}
 	jobs := c.c01Jobs(maxN)
+	c.BoundsText = append(c.BoundsText, "DFA table simulation (unbounded lexeme length): for every pair of the relation between generated DFA states and sets of reference NFA states and a SYMBOLIC rune, TransTab and the NFA step agree and ActTab is what the priority rule says for the set; the bounded Scan runs then only have to establish the Scan loop around the tables")
 	c.BoundsText = append(c.BoundsText, fmt.Sprintf("%d corpus lexical grammars through the current gocc; generated Scan versus a reference lexer over /verif's own Thompson NFA (regular definitions inlined, '.' only where no explicit alternative of a live item matches, priority: syntax literal, then declaration order); one Scan from every reachable offset, sources of 0..%d arbitrary bytes; compared: token NAME (through the generated TokMap), start offset, lexeme length, lexer offset afterwards", len(LexSpecs), maxN),
 		"outside the claim: patterns that match the empty string; recursive regular definitions; grammars outside the corpus; longer inputs")
 	c.RunJobs(filterJobs(jobs), 4)
